@@ -848,3 +848,45 @@ class Interleaver(Monitor):
             name, args = choose(o, av, rng, self.pol)
             getattr(o, name)(*args)
             ctx.counters['interleaved_operations'] += 1
+
+
+class FinalShowdownRule(Monitor):
+    """Trace rule of the showdown: once the last card of the hand has been
+    dealt, every player who is still in with a card face down is asked to
+    show or muck (he may answer by keeping cards down -- that is his
+    choice; not being asked is not).  Guards the path "tabled part of the
+    hand at an all-in showdown, never asked again after the run-out"."""
+
+    name = 'final-showdown-rule'
+
+    def on_begin(self, ctx):
+        self.k = 0
+        self.last_deal = -1
+        self.last_show = {}
+        self.judged = False
+
+    def on_op(self, ctx, s, op):
+        self.k += 1
+        kind = type(op).__name__
+        if kind in ('HoleDealing', 'BoardDealing', 'CardBurning',
+                    'StandingPatOrDiscarding'):
+            self.last_deal = self.k
+        elif kind == 'HoleCardsShowingOrMucking':
+            self.last_show[op.player_index] = self.k
+        elif kind in ('HandKilling', 'ChipsPushing') and not self.judged:
+            self.judged = True
+            live = [i for i in s.player_indices if s.statuses[i]]
+            if len(live) < 2 or s.street_index is None:
+                return
+            ctx.counters['final_showdowns_judged'] += 1
+            for i in live:
+                down = [c for c, u in zip(s.hole_cards[i],
+                                          s.hole_card_statuses[i]) if not u]
+                if down and self.last_show.get(i, -1) < self.last_deal:
+                    ctx.violate(
+                        f'player {i} is still in with cards face down '
+                        f'({s.hole_cards[i]} / {s.hole_card_statuses[i]}) '
+                        f'but was not asked to show or muck after the last '
+                        f'card was dealt (his last show/muck was operation '
+                        f'#{self.last_show.get(i)}, the last deal '
+                        f'#{self.last_deal})')
